@@ -59,6 +59,7 @@ type FuncContract struct {
 	RelName     string
 	Pkg         string
 	Assumed     bool
+	Iface       bool // contract of an interface method (justified by its verified implementations)
 	Inline      bool
 	NoPanic     bool
 	NoOverflow  bool
@@ -98,7 +99,7 @@ func NewContractDB() *ContractDB {
 	return &ContractDB{Funcs: map[string]*FuncContract{}, Specs: map[string]*SpecFunc{}, Preds: map[string]*Pred{}, Lemmas: map[string]*Lemma{}, Regions: map[string][]string{}}
 }
 
-var topKW = map[string]bool{"spec": true, "pred": true, "def": true, "lemma": true, "axiom": true, "func": true, "assumed": true, "region": true, "guarded": true, "props": true}
+var topKW = map[string]bool{"spec": true, "pred": true, "def": true, "lemma": true, "axiom": true, "func": true, "assumed": true, "interface": true, "region": true, "guarded": true, "props": true}
 var clauseKW = map[string]bool{"requires": true, "ensures": true, "modifies": true, "nopanic": true, "nooverflow": true, "inline": true, "loop": true, "use": true, "mode": true, "by": true, "prop": true, "pure": true, "ghost": true}
 
 type rawItem struct {
@@ -319,9 +320,9 @@ func (db *ContractDB) LoadContracts(path, pkgPath string) error {
 				fs = append(fs, strings.TrimSpace(fld))
 			}
 			db.Regions[strings.TrimSpace(parts[0])] = fs
-		case "func", "assumed":
+		case "func", "assumed", "interface":
 			rel := strings.TrimSpace(it.head)
-			fc := &FuncContract{RelName: rel, Name: qualify(pkgPath, rel), Pkg: pkgPath, Assumed: it.kw == "assumed", Loops: map[int]*LoopContract{}, Props: props, File: it.file, Line: it.line}
+			fc := &FuncContract{RelName: rel, Name: qualify(pkgPath, rel), Pkg: pkgPath, Assumed: it.kw == "assumed" || it.kw == "interface", Iface: it.kw == "interface", Loops: map[int]*LoopContract{}, Props: props, File: it.file, Line: it.line}
 			for _, c := range it.clauses {
 				switch c.kw {
 				case "requires", "ensures", "modifies":
